@@ -127,7 +127,7 @@ def run(ck):
     defs = stmts_with_env(rm, lambda s: isinstance(s, ast.Assign) and u(s.targets[0]) == 'weight')
     arms = {}
     for st, c, e in defs:
-        arms[u(st.value)] = c
+        arms[u(flow.subst(st.value, e))] = c
     want = {"molecule.force_field.variables.get('center_weight', None)", 'None', 'self.weight'}
     ok = set(arms) == want
     if ok:
